@@ -103,6 +103,10 @@ static const char* arch_name(Arch a) { return a == Arch::kX86 ? "x86" : a == Arc
 struct Proj {
   std::vector<size_t> ss; std::vector<uint32_t> sd;
   size_t nl = 0, nf = 0, nr = 0, na = 0, nn = 0, cu = 0, cs = 0, off = 0, nv = 0;
+  size_t nb = 0;   // bound labels
+  size_t gf = 0;   // fixups on the holder's global (detached from their label) list
+  size_t gb = 0;   // ... of which carry no valid label id / section id (must be 0: fixup.h says a detached fixup holds its label id)
+  uint32_t gd = 0; // digest over (section, offset, label id) of the global fixup list
 };
 
 struct ProbeObs { uint32_t err = 0, n = 0, dg = 0, dl = 0, dr = 0, df = 0; };
@@ -128,7 +132,22 @@ struct Exec {
   bool all_failed = true;
   bool in_func = false;
   size_t ncalls = 0;
-  uint8_t databuf[256];
+  uint8_t databuf[1024];   // embed_data_array reads up to 64 bytes x 5 items
+  // reference pass: the same execution (same seed) with every refused call simply omitted; nothing is logged
+  bool ref_pass = false;
+  std::vector<uint8_t> failed;            // main pass: per call index, 1 = the call was refused
+  const std::vector<uint8_t>* skip = nullptr;
+  size_t call_idx = 0;
+  bool pure = true;                       // main pass: every refused call left the whole projection unchanged
+  bool main_all_failed = true;            // ref pass: takes the same branch as the main pass did
+  std::string last_p;
+  DiagnosticOptions diag = DiagnosticOptions::kValidateAssembler | DiagnosticOptions::kValidateIntermediate;
+  bool vi_on = true, va_on = true, kinds_only = false;
+  int fin_style = 0;
+  // shadow: the same request handed to a strictly validating Assembler (Builder executions with kValidateIntermediate)
+  CodeHolder sh_code; std::unique_ptr<BaseAssembler> sh_asm;
+  std::string extra_json;                 // extra fields of the next Call event
+  bool will_skip() const { return ref_pass && skip && call_idx < skip->size() && (*skip)[call_idx]; }
 
   Exec(uint64_t seed, Arch a, int emkind, const std::string& md) : r(seed), arch(a), emk(emkind), mode(md) {
     is_x86 = a != Arch::kAArch64;
@@ -157,7 +176,24 @@ struct Exec {
     if (attached) code.attach(em);
     // strict validation (x86: the property's quantifier; a64 has no operand validator of its own kind checks but the
     // option is harmless there)
-    em->add_diagnostic_options(DiagnosticOptions::kValidateAssembler | DiagnosticOptions::kValidateIntermediate);
+    // Diagnostic options.  Assembler: strict validation always (x86: the property's quantifier).  Builder: every subset of
+    // {kValidateAssembler, kValidateIntermediate}; Compiler: kValidateIntermediate always on, kValidateAssembler swept.
+    { unsigned c = unsigned(r.below(100));
+      if (emk == 1) { vi_on = c < 65; va_on = c < 40 || (c >= 65 && c < 85); }
+      else if (emk == 2) { vi_on = true; va_on = c < 50; }
+      if (mode != "general" && mode != "failonly") { vi_on = va_on = true; }
+      diag = (va_on ? DiagnosticOptions::kValidateAssembler : DiagnosticOptions::kNone) | (vi_on ? DiagnosticOptions::kValidateIntermediate : DiagnosticOptions::kNone);
+      // x86 without any validation: the property only quantifies over arbitrary ids / memory forms / immediates / modifiers
+      // with the operand KINDS of a real form (arbitrary kinds need strict validation)
+      kinds_only = is_x86 && emk == 1 && !vi_on && !va_on; }
+    fin_style = int(r.below(3));
+    em->add_diagnostic_options(diag);
+    if (emk == 1 && attached && vi_on) {
+      sh_code.init(Environment(a));
+      if (is_x86) sh_asm.reset(new x86::Assembler()); else sh_asm.reset(new a64::Assembler());
+      sh_code.attach(sh_asm.get());
+      sh_asm->add_diagnostic_options(DiagnosticOptions::kValidateAssembler);
+    }
   }
 
   // ---- projection -------------------------------------------------------------------------------------
@@ -167,6 +203,15 @@ struct Exec {
     p.nl = code.label_count();
     p.nf = code.unresolved_fixup_count();
     p.nr = code.reloc_entries().size();
+    for (uint32_t i = 0; i < p.nl; i++) if (code.is_label_bound(i)) p.nb++;
+    { uint32_t hsh = 2166136261u;
+      for (Fixup* fx = code._fixups; fx && p.gf < 100000; fx = fx->next) {
+        p.gf++;
+        if (fx->label_or_reloc_id >= p.nl || fx->section_id >= code.section_count()) p.gb++;
+        uint32_t w[3] = {fx->section_id, uint32_t(fx->offset), fx->label_or_reloc_id};
+        hsh = fnv(reinterpret_cast<const uint8_t*>(w), sizeof w, hsh);
+      }
+      p.gd = d31(hsh); }
     Section* at = code.address_table_section();
     p.na = at ? size_t(at->virtual_size() / code.environment().register_size()) : 0;
     if (as && as->code()) { p.cs = as->current_section()->section_id(); p.off = as->offset(); }
@@ -185,8 +230,8 @@ struct Exec {
     s += "],\"sd\":[";
     for (size_t i = 0; i < p.sd.size(); i++) { snprintf(b, sizeof b, "%s%u", i ? "," : "", p.sd[i]); s += b; }
     char c[256];
-    snprintf(c, sizeof c, "],\"nl\":%zu,\"nf\":%zu,\"nr\":%zu,\"na\":%zu,\"nn\":%zu,\"cu\":%zu,\"cs\":%zu,\"off\":%zu,\"nv\":%zu}",
-             p.nl, p.nf, p.nr, p.na, p.nn, p.cu, p.cs, p.off, p.nv);
+    snprintf(c, sizeof c, "],\"nl\":%zu,\"nf\":%zu,\"nr\":%zu,\"na\":%zu,\"nn\":%zu,\"cu\":%zu,\"cs\":%zu,\"off\":%zu,\"nv\":%zu,\"nb\":%zu,\"gf\":%zu,\"gb\":%zu,\"gd\":%u}",
+             p.nl, p.nf, p.nr, p.na, p.nn, p.cu, p.cs, p.off, p.nv, p.nb, p.gf, p.gb, p.gd);
     s += c;
   }
   void put_os(std::string& s, const char* key) {
@@ -198,11 +243,13 @@ struct Exec {
   }
 
   void reset_event(uint32_t xs, size_t calls) {
+    { std::string t; put_proj(t, proj()); last_p = t; }
+    if (ref_pass) return;
     std::string s = "{\"e\":\"Reset\",\"arch\":\""; s += arch_name(arch);
     s += "\",\"em\":\""; s += emk == 0 ? "asm" : emk == 1 ? "builder" : "compiler";
     s += "\",\"hk\":\""; s += hk == 0 ? "none" : hk == 1 ? "rec" : "throw";
     s += "\",\"att\":"; s += attached ? "true" : "false";
-    char c[128]; snprintf(c, sizeof c, ",\"xs\":%u,\"xi\":%zu,\"n\":%zu,\"mode\":\"%s\",\"lg\":%d,\"own\":%d,", xs, xi, calls, mode.c_str(), logger_on, own_handler);
+    char c[128]; snprintf(c, sizeof c, ",\"xs\":%u,\"xi\":%zu,\"n\":%zu,\"mode\":\"%s\",\"lg\":%d,\"own\":%d,\"vi\":%s,\"va\":%s,", xs, xi, calls, mode.c_str(), logger_on, own_handler, vi_on ? "true" : "false", va_on ? "true" : "false");
     s += c;
     put_proj(s, proj()); s += ","; put_os(s, "os"); s += "}\n";
     fputs(s.c_str(), g_out);
@@ -212,6 +259,16 @@ struct Exec {
   // f() performs the call and returns the numeric error code (0 = Ok).  For calls that return a Label the wrapper
   // lambda maps "invalid label returned" to a non-zero code.
   template<typename F> uint32_t call(const char* kind, const std::string& in, F&& f) {
+    if (ref_pass) {                       // reference pass: refused calls are omitted, nothing is logged
+      bool sk = will_skip(); call_idx++;
+      extra_json.clear();
+      if (sk) return 1;
+      h.codes.clear();
+      uint32_t rc = 0;
+      try { rc = f(); } catch (const EmitError& e) { rc = uint32_t(e.code); }
+      if (logger_on && lg.data_size() > 4096) lg.clear();
+      return rc;
+    }
     g_pending = std::string(arch_name(arch)) + "/" + (emk == 0 ? "asm" : emk == 1 ? "builder" : "compiler") + " " + kind + " " + in;
     std::string s = "{\"e\":\"Call\",\"k\":\""; s += kind; s += "\",";
     put_os(s, "oi");
@@ -221,11 +278,17 @@ struct Exec {
     catch (const EmitError& e) { th = 1; rc = uint32_t(e.code); }
     if (logger_on && lg.data_size() > 4096) lg.clear();
     if (rc != 0) { } else all_failed = false;
+    bool is_fin = strcmp(kind, "finalize") == 0;
+    failed.push_back(rc != 0 && !is_fin ? 1 : 0); call_idx++;
     char c[64];
     snprintf(c, sizeof c, ",\"r\":%u,\"th\":%d,\"hc\":[", rc, th); s += c;
     for (size_t i = 0; i < h.codes.size() && i < 8; i++) { snprintf(c, sizeof c, "%s%u", i ? "," : "", h.codes[i]); s += c; }
     s += "],";
-    put_proj(s, proj()); s += ","; put_os(s, "os");
+    { std::string t; put_proj(t, proj());
+      if (rc != 0 && !is_fin && t != last_p) pure = false;
+      last_p = t; s += t; }
+    s += ","; put_os(s, "os");
+    s += extra_json; extra_json.clear();
     s += ",\"in\":";
     { vj::W w; w.str(in.c_str()); s += w.s; }
     s += "}\n";
@@ -386,6 +449,22 @@ struct Exec {
     if (o.is_mem() && o.as<BaseMem>().has_base_reg() && r.chance(1, 2)) o._base_id = r.pick(vregs);
   }
   void perturb_x86(Operand_& o) {
+    if (kinds_only) {                    // ids / offsets / shifts / segments / immediates / label ids only: operand kinds stay
+      if (o.is_reg()) o.as<Reg>().set_id(weird_reg_id());
+      else if (o.is_mem()) {
+        x86::Mem& m = o.as<x86::Mem>();
+        switch (r.below(5)) {
+          case 0: m.set_base_id(m.has_base_label() ? mem_label_id() : (m.has_base_reg() ? weird_reg_id() : m.base_id())); break;
+          case 1: if (m.has_index()) m.set_index_id(weird_reg_id()); else m.set_offset_lo32(int32_t(weird_off())); break;
+          case 2: m.set_shift(uint32_t(r.below(4))); break;
+          case 3: if (m.has_base()) m.set_offset_lo32(int32_t(weird_off())); else m.set_offset(weird_off()); break;
+          default: m.set_segment(uint32_t(r.below(7))); break;
+        }
+      }
+      else if (o.is_imm()) o.as<Imm>().set_value(weird_imm());
+      else if (o.is_label()) { bool v; o._base_id = pick_label_id(v); }
+      return;
+    }
     if (o.is_reg()) {
       unsigned c = unsigned(r.below(10));
       if (c < 7) o.as<Reg>().set_id(weird_reg_id());
@@ -463,10 +542,48 @@ struct Exec {
   void emit_tuple(uint32_t id, uint32_t opts, const RegOnly& x, const char* cmt, Operand_* ops, size_t n, const char* src) {
     isolate(ops, n);
     std::string in = describe(id, opts, x, cmt != nullptr, ops, n, src);
+    if (will_skip()) { call("inst", in, [&]() -> uint32_t { return 1; }); return; }
+    // does the request carry a virtual register id (register operand, memory base register, memory index register)?
+    // The Builder looks at the operands the way EmitterUtils::op_count_from_emit_args() counts them: when operand 3 is none,
+    // operands 4 and 5 are not part of the request (a trailing list after a gap is dropped by convention); vr and the shadow
+    // request are taken over exactly that effective list.
+    size_t n_eff = 0;
+    if (n > 3 && !ops[3].is_none()) n_eff = (n > 4 && !ops[4].is_none()) ? ((n > 5 && !ops[5].is_none()) ? 6 : 5) : 4;
+    else { for (size_t i = 0; i < n && i < 3; i++) if (!ops[i].is_none()) n_eff = i + 1; }
+    int vr = 0;
+    for (size_t i = 0; i < n_eff; i++) {
+      const Operand_& o = ops[i];
+      if (o.is_reg() && o.id() >= Operand::kVirtIdMin) vr = 1;
+      if (o.is_mem()) {
+        const BaseMem& m = o.as<BaseMem>();
+        if (uint32_t(m.base_type()) > uint32_t(RegType::kLabelTag) && m.base_id() >= Operand::kVirtIdMin) vr = 1;
+        if (m.index_type() != RegType::kNone && m.index_id() >= Operand::kVirtIdMin) vr = 1;
+      }
+    }
+    uint32_t sh = 0;
     em->set_inst_options(InstOptions(opts));
     em->set_extra_reg(x);
     em->set_inline_comment(cmt);
-    call("inst", in, [&]() -> uint32_t { return uint32_t(em->_emit_op_array(id, ops, n)); });
+    char xj[48]; snprintf(xj, sizeof xj, ",\"vr\":%d", vr); extra_json = xj;
+    // the shadow result is needed inside the event: run the call through a small wrapper that fills it in afterwards
+    uint32_t rc_main = 0;
+    auto shadow = [&]() {
+      if (!sh_asm || ref_pass || rc_main != 0) return;
+      while (sh_code.label_count() < code.label_count()) sh_asm->new_label();
+      sh_asm->set_inst_options(InstOptions(opts)); sh_asm->set_extra_reg(x);
+      Error e2 = sh_asm->_emit_op_array(id, ops, n_eff);
+      sh_asm->reset_state();
+      // refusals that depend on the holder state of the shadow (label distances, label table, memory) carry no information
+      if (e2 != Error::kOk && e2 != Error::kInvalidDisplacement && e2 != Error::kInvalidLabel && e2 != Error::kLabelAlreadyBound &&
+          e2 != Error::kOutOfMemory && e2 != Error::kTooLarge && e2 != Error::kInvalidState) sh = uint32_t(e2);
+      if (sh_code.text_section()->buffer_size() > (1u << 16)) { sh_code.reset(); sh_code.init(Environment(arch)); sh_code.attach(sh_asm.get()); sh_asm->add_diagnostic_options(DiagnosticOptions::kValidateAssembler); }
+    };
+    call("inst", in, [&]() -> uint32_t {
+      rc_main = 1;                       // stays 1 when the call throws
+      rc_main = uint32_t(em->_emit_op_array(id, ops, n));
+      shadow();
+      char sj[32]; snprintf(sj, sizeof sj, ",\"sh\":%u", sh); extra_json += sj;
+      return rc_main; });
   }
   const char* rand_comment() { return r.chance(1, 8) ? "c14 inline comment" : nullptr; }
 
@@ -496,6 +613,7 @@ struct Exec {
           id = is_x86 ? bad_x86[r.below(6)] : bad_a64[r.below(6)];
         }
         else if (c < 88 && is_x86) opts = rand_options();
+        else if (kinds_only) { if (n > 0) perturb_x86(ops[r.below(n)]); }
         else if (c < 94 && is_x86) x = rand_extra();
         else if (is_x86 && n < 6) { Operand o = x86_rand_operand(); ops[n++] = o; }  // one operand too many
         else if (n > 0 && is_x86) n--;                                          // one operand too few
@@ -583,7 +701,64 @@ struct Exec {
     call("addfunc", "", [&]() -> uint32_t { FuncNode* f = nullptr; Error e = cc->add_func_node(Out(f), FuncSignature::build<int, int, int>()); if (e == Error::kOk) in_func = true; return uint32_t(e); });
   }
   void c_func_end() {
-    call("endfunc", "", [&]() -> uint32_t { Error e = cc->end_func(); in_func = false; return uint32_t(e); });
+    call("endfunc", "", [&]() -> uint32_t { return uint32_t(cc->end_func()); });
+    in_func = false;
+  }
+
+  // An out-of-range short reference: reference to a fresh label with a narrow displacement field, then padding beyond its
+  // range, then bind().  Assembler: the bind is refused (InvalidDisplacement) and leaves a detached fixup behind that the
+  // consumers of the holder (resolve_cross_section_fixups, JitRuntime::add) walk later.  Builder: surfaces at finalize.
+  void c_shortref() {
+    c_new_label();
+    if (labels.empty()) return;
+    uint32_t L = labels.back();
+    Operand_ ops[3]; Operand lab = Label(L);
+    if (is_x86) {
+      unsigned c = unsigned(r.below(3));
+      if (c == 0) { ops[0] = lab; emit_tuple(x86::Inst::kIdJmp, uint32_t(InstOptions::kShortForm), RegOnly{}, nullptr, ops, 1, "shortref"); }
+      else if (c == 1) { Operand cx = x86::ecx; ops[0] = cx; ops[1] = lab; emit_tuple(x86::Inst::kIdJecxz, 0, RegOnly{}, nullptr, ops, 2, "shortref"); }
+      else { ops[0] = lab; emit_tuple(x86::Inst::kIdLoop, 0, RegOnly{}, nullptr, ops, 1, "shortref"); }
+    } else {
+      Operand w0 = a64::w(uint32_t(r.below(8))); Operand bit = Imm(1); ops[0] = w0; ops[1] = bit; ops[2] = lab;
+      emit_tuple(a64::Inst::kIdTbz, 0, RegOnly{}, nullptr, ops, 3, "shortref");
+    }
+    static std::vector<uint8_t> pad(40000, 0x90);
+    size_t n = is_x86 ? size_t(130 + r.below(100)) : size_t(32768 + 4 * r.below(8));
+    char in[48]; snprintf(in, sizeof in, "data=pad size=%zu", n);
+    call("embed", in, [&]() -> uint32_t { return uint32_t(em->embed(pad.data(), n)); });
+    char in2[48]; snprintf(in2, sizeof in2, "label=%u", L);
+    call("bind", in2, [&]() -> uint32_t { return uint32_t(em->bind(Label(L))); });
+  }
+
+  // ---- finishing phase: the consumers of the holder state ------------------------------------------------------------
+  struct FinObs { uint32_t style = 0, r1 = 0, r2 = 0, r3 = 0, unres = 0, nl = 0, nb = 0, gf = 0, gb = 0, nsec = 0, total = 0, dg = 0; };
+  FinObs finish_phase() {
+    FinObs o; o.style = uint32_t(fin_style);
+    g_pending = std::string(arch_name(arch)) + "/" + (emk == 0 ? "asm" : emk == 1 ? "builder" : "compiler") + (ref_pass ? " finish (reference pass)" : " finish") + " style=" + std::to_string(fin_style);
+    if (fin_style < 2) {
+      o.r1 = uint32_t(code.flatten());
+      o.r2 = uint32_t(code.resolve_cross_section_fixups());
+      if (fin_style == 1) o.r3 = uint32_t(code.relocate_to_base(0x70000000u));
+    } else {                                                   // JitRuntime::add = flatten + resolve + allocate + relocate + copy
+      static JitRuntime rt; void* fn = nullptr;
+      o.r3 = uint32_t(rt._add(&fn, &code));
+      if (fn) rt._release(fn);
+    }
+    Proj p = proj();
+    o.unres = uint32_t(p.nf); o.nl = uint32_t(p.nl); o.nb = uint32_t(p.nb); o.gf = uint32_t(p.gf); o.gb = uint32_t(p.gb); o.nsec = uint32_t(p.ss.size());
+    uint32_t hsh = 2166136261u;
+    for (size_t i = 0; i < p.ss.size(); i++) { o.total += uint32_t(p.ss[i]); hsh = fnv(reinterpret_cast<const uint8_t*>(&p.sd[i]), 4, hsh); }
+    o.dg = fin_style == 2 ? 0 : d31(hsh);                      // after JitRuntime::add the bytes depend on the allocated address
+    return o;
+  }
+  static void put_fin(std::string& s, const char* k, const FinObs& o) {
+    char c[200]; snprintf(c, sizeof c, "\"%s\":[%u,%u,%u,%u,%u,%u,%u,%u,%u,%u,%u,%u]", k, o.style, o.r1, o.r2, o.r3, o.unres, o.nl, o.nb, o.gf, o.gb, o.nsec, o.total, o.dg); s += c;
+  }
+  void finish_event(const FinObs& u, const FinObs& f, bool cmp) {
+    std::string s = "{\"e\":\"Finish\",\"cmp\":"; s += cmp ? "true" : "false"; s += ",";
+    put_fin(s, "u", u); s += ","; put_fin(s, "f", f); s += ",";
+    put_proj(s, proj()); s += ","; put_os(s, "os"); s += "}\n";
+    fputs(s.c_str(), g_out);
   }
 
   void other_call() {
@@ -717,13 +892,14 @@ struct Exec {
     else if (emk == 1) { if (is_x86) fe.reset(new x86::Builder()); else fe.reset(new a64::Builder()); }
     else { if (is_x86) fe.reset(new x86::Compiler()); else fe.reset(new a64::Compiler()); }
     fc.attach(fe.get());
-    fe->add_diagnostic_options(DiagnosticOptions::kValidateAssembler | DiagnosticOptions::kValidateIntermediate);
+    fe->add_diagnostic_options(diag);
     ProbeObs o = observe_probe(fe.get(), fc, is_x86, emk);
     fc.detach(fe.get());
     return o;
   }
   void probe() {
     if (!attached) return;
+    if (ref_pass) { h.codes.clear(); observe_probe(em, code, is_x86, emk); return; }
     g_pending = "probe";
     h.codes.clear();
     ProbeObs u = observe_probe(em, code, is_x86, emk);
@@ -758,6 +934,7 @@ struct Exec {
       return o;
     };
     ProbeObs u = run(em, code, true);
+    if (ref_pass) return;
     CodeHolder fc; fc.init(Environment(arch));
     Section* s2 = nullptr; fc.new_section(Out(s2), ".data2", SIZE_MAX, SectionFlags::kNone, 8);
     StringLogger flg; if (logger_on) fc.set_logger(&flg);
@@ -765,7 +942,7 @@ struct Exec {
     if (emk == 1) { if (is_x86) fe.reset(new x86::Builder()); else fe.reset(new a64::Builder()); }
     else { if (is_x86) fe.reset(new x86::Compiler()); else fe.reset(new a64::Compiler()); }
     fc.attach(fe.get());
-    fe->add_diagnostic_options(DiagnosticOptions::kValidateAssembler | DiagnosticOptions::kValidateIntermediate);
+    fe->add_diagnostic_options(diag);
     ProbeObs f = run(fe.get(), fc, false);
     fc.detach(fe.get());
     std::string s = "{\"e\":\"Probe\",\"final\":true,";
@@ -800,13 +977,13 @@ struct Exec {
   RegType any_base_type() { RegType t = RegType(r.below(32)); if (t == RegType::kLabelTag && !bad_mem_label_ok()) t = RegType::kGp32; return t; }
 
   // ---- one execution ---------------------------------------------------------------------------------------------
-  void run(uint32_t xs, size_t calls) {
+  void run_calls(uint32_t xs, size_t calls) {
     reset_event(xs, calls);
     if (mode == "failonly") {
       base_labels = code.label_count();
       size_t n = 1 + r.below(calls);
       for (size_t i = 0; i < n; i++) failing_call();
-      if (attached && all_failed) {
+      if (attached && (ref_pass ? main_all_failed : all_failed)) {
         if (emk == 0) probe(); else final_equivalence();
       }
       return;
@@ -885,11 +1062,13 @@ struct Exec {
         emit_tuple(is_x86 ? uint32_t(x86::Inst::kIdMov) : uint32_t(a64::Inst::kIdMov), 0, RegOnly{}, nullptr, ops, 2, "form");
       }
     }
+    size_t shortref_at = r.chance(1, 2) ? calls / 2 + r.below(calls / 2 + 1) : SIZE_MAX;
     for (size_t i = 0; i < calls; i++) {
+      if (i == shortref_at && attached) c_shortref();
       unsigned c = unsigned(r.below(100));
       if (c < 22) inst_from_form(true);
       else if (c < 50) inst_from_form(false);
-      else if (c < 72 && is_x86) inst_random_x86();
+      else if (c < 72 && is_x86 && !kinds_only) inst_random_x86();
       else if (c < 72) inst_from_form(false);
       else other_call();
       if (r.chance(1, 40)) probe();
@@ -901,6 +1080,23 @@ struct Exec {
     }
   }
 };
+
+// One execution = the recorded main pass, the reference pass (same seed, refused calls omitted; only when every refused
+// call left the whole projection unchanged) and the finishing phase on both.
+static void run_execution(uint32_t xs, size_t xi, Arch arch, int emk, const std::string& mode, size_t calls) {
+  Exec ex(xs, arch, emk, mode); ex.xi = xi;
+  ex.run_calls(xs, calls);
+  Exec::FinObs f; bool cmp = false;
+  if (ex.pure) {
+    g_pending = "reference pass";
+    Exec rf(xs, arch, emk, mode); rf.ref_pass = true; rf.skip = &ex.failed; rf.main_all_failed = ex.all_failed;
+    rf.run_calls(xs, calls);
+    f = rf.finish_phase();
+    cmp = true;
+  }
+  Exec::FinObs u = ex.finish_phase();
+  ex.finish_event(u, f, cmp);
+}
 
 static uint32_t mix31(uint64_t a, uint64_t b) {
   vj::Rng r(a * 1000003ull + b);
@@ -932,14 +1128,14 @@ int main(int argc, char** argv) {
     std::string mode = argc > 9 ? argv[9] : "general";
     for (size_t i = first; i < first + n; i++) {
       uint32_t xs = mix31(base, i);
-      { Exec ex(xs, arch, emk, mode); ex.xi = i; ex.run(xs, calls); }
+      run_execution(xs, i, arch, emk, mode, calls);
       fflush(g_out);
     }
   } else if (cmd == "one") {
     uint32_t xs = uint32_t(strtoul(argv[5], nullptr, 10));
     size_t calls = size_t(atol(argv[6]));
     std::string mode = argc > 7 ? argv[7] : "general";
-    Exec ex(xs, arch, emk, mode); ex.run(xs, calls);
+    run_execution(xs, 0, arch, emk, mode, calls);
   } else return 3;
   fclose(g_out);
   g_out = nullptr;
